@@ -342,6 +342,9 @@ func GenRecSystem(t *rapid.T) (*Grammar, map[string]bool) {
 						// ( x* y? )! has a body that can match nothing, but the group itself cannot
 						used["after_nonempty_group_of_optionals(look-alike)"] = true
 						kids = append(kids, Group("!", Seq(Group("*", c.leaf()), Group("?", leaf()))))
+					} else if rapid.IntRange(0, 7).Draw(t, "typedempty") == 0 {
+						used["after_typed_empty_literal(look-alike)"] = true
+						kids = append(kids, TLit("", "Ident")) // "":Ident takes any Ident token
 					} else if rapid.IntRange(0, 5).Draw(t, "negconsume") == 0 {
 						used["after_negated_token(look-alike)"] = true
 						kids = append(kids, Not(c.leaf())) // ~x consumes one token
